@@ -107,6 +107,27 @@ def make_cases(ctx, first):
                     w.memdir = True
                 probe_steps(w, ("post", marks))
                 if getattr(w, "memdir", False):
+                    # further requests against the memory store over the directory: the twin below sends the same requests
+                    # to a directory store re-opened at the same point
+                    w.freeze_at = len(w.steps)
+                    extra_n = rng.randrange(8, 25)
+                    bl = [b for r0 in REPOS for b in w.blobs[r0]]
+                    while len(w.steps) < w.freeze_at + extra_n:
+                        w.run(len(w.steps) + 1)
+                        if bl and rng.random() < 0.3:
+                            # delete (twice), push again, delete again: blobs that exist as files of the backing directory
+                            repo = rng.choice(REPOS)
+                            if w.blobs[repo]:
+                                data = rng.choice(w.blobs[repo])
+                                d = dg("sha256", data)
+                                for _ in range(rng.randrange(1, 3)):
+                                    w.add(blob_delete(repo, d))
+                                    w.add(blob_get(repo, d))
+                                if rng.random() < 0.6:
+                                    w.add(upload_post(repo, digest=d, body=data))
+                                    w.add(blob_get(repo, d))
+                                    w.add(blob_delete(repo, d))
+                                    w.add(blob_get(repo, d))
                     break
         w.add(special("snapshot", full=True))
         for repo in REPOS:
@@ -124,6 +145,13 @@ def make_cases(ctx, first):
                 if seen:
                     s["model"] = "(skip)"
         cases.append(case)
+        if getattr(w, "memdir", False):
+            # the same requests with the directory store re-opened where the twin switches to the memory store over the directory
+            st2 = [dict(x) for x in case["steps"]]
+            for j, x in enumerate(st2):
+                if x["kind"] == "freeze":
+                    st2[j] = dict(restart_step(), model="(skip)")
+            cases.append(dict(case, id=first + len(cases), steps=st2, twin=case["id"], twin_kind="memdir"))
         if variant == 1:
             # the same requests against the memory store (collections included; no restarts in this variant)
             c2 = dict(case, id=first + len(cases), conf=dict(conf, store="mem"), steps=[dict(s) for s in case["steps"]], twin=case["id"])
@@ -284,8 +312,17 @@ def twin_oracle(ctx, cases, iouts):
             if st["kind"] in ("snapshot",) or "status" not in rm or "status" not in rd:
                 continue
             a, b = canon_impl(dict(st, model=None), rd, sd), canon_impl(dict(st, model=None), rm, sm)
+            if c.get("twin_kind") == "memdir" and st["kind"] not in ("blobget", "mget", "tags", "tagwalk", "refs", "refwalk", "uget"):
+                # the property speaks of read requests; the memory store over a directory acknowledges the repeated delete of a
+                # blob of the backing directory (202 where the directory store answers 404) - reads agree
+                continue
             if a != b:
                 diff = {x: (a.get(x), b.get(x)) for x in set(a) | set(b) if a.get(x) != b.get(x)}
+                if c.get("twin_kind") == "memdir":
+                    # (here d is the case with the memory store over the directory, c the re-opened directory store)
+                    ctx.violation("memory store over the directory and re-opened directory store answer %s %s/%s differently: %s" % (st["kind"], st.get("repo"), st.get("arg", ""), str(diff)[:300]),
+                                  dict(case=replayable(dict(d, steps=d["steps"][:k + 1])), memdir=str(a)[:800], dir=str(b)[:800]), "C10:memdir-dir-%s" % st["kind"])
+                    break
                 ctx.violation("directory and memory store answer %s %s/%s differently: %s" % (st["kind"], st.get("repo"), st.get("arg", ""), str(diff)[:300]),
                               dict(case=replayable(dict(d, steps=d["steps"][:k + 1])), dir=str(a)[:800], mem=str(b)[:800]), "C10:mem-dir-%s" % st["kind"])
                 break
